@@ -617,7 +617,7 @@ theorem C17_source_send (cfg : Cfg) (hsub : cfg.isSub = Gen.C17.isSub) (data : B
   exact Pyro.C17.C17_send cfg.blocking data script
 
 /-- non-vacuity: a concrete run of the transcribed source (MSG_WAITALL, fragmented, one retryable error) -/
-example : toRecv (runRecv ⟨true, false, true, Gen.C17.isSub⟩ Gen.C17.receiveData 5 [1,2,3,4,5,6,7]
+example : toRecv (runRecv { useWaitall := true, peercert := false, blocking := true, isSub := Gen.C17.isSub } Gen.C17.receiveData 5 [1,2,3,4,5,6,7]
     [.retryable, .deliver 3, .deliver 1, .retryable, .deliver 9]) = some (.ok [1,2,3,4,5], [6,7], []) := by
   rw [recv_translated _ rfl]; decide
 
